@@ -106,6 +106,8 @@ def generate(seed, tier):
                       [0, 1, 2, 3, 5, 8, 10, 12, 20, 30])
     src_fmt = rng.choice(["export", "export", "tigerxml", "discobrackets"])
     dest_fmt = rng.choice(c03.DEST_FORMATS)
+    src_enc = rng.choice(["utf-8", "utf-8", "latin-1", "utf-16"])
+    dest_enc = rng.choice(["utf-8", "utf-8", "latin-1", "utf-16"])
     k = model.swarm_knobs(rng, tier, allow=("ascii", "latin1"),
                           continuous=(dest_fmt == "brackets"))
     k["n_max"] = rng.choice([1, 2, 4, 6])
@@ -125,12 +127,14 @@ def generate(seed, tier):
         calls.append([gen_spec(rng, n), n])
     return {"tb": tb, "src_fmt": src_fmt, "dest_fmt": dest_fmt, "dopts": dopts, "spec": spec,
             "filter": flt, "calls": calls, "layout": rng.randrange(1 << 30),
+            "src_enc": src_enc, "dest_enc": dest_enc,
             "io_seed": rng.randrange(1 << 30)}
 
 
 def argv(sc, split):
     a = ["transform", "/sim/w/src", "/sim/w/out/d", "--src-format", sc["src_fmt"],
-         "--dest-format", sc["dest_fmt"], "--src-opts", "quiet"]
+         "--dest-format", sc["dest_fmt"], "--src-opts", "quiet",
+         "--src-enc", sc.get("src_enc", "utf-8"), "--dest-enc", sc.get("dest_enc", "utf-8")]
     if sc["dopts"]:
         a += ["--dest-opts"] + c03.optlist(sc["dopts"])
     if sc["filter"]:
@@ -165,7 +169,8 @@ def execute(sc, sim):
     tb = sc["tb"]
     codec = {"export": "export4", "tigerxml": "tigerxml",
              "discobrackets": "discobrackets"}[sc["src_fmt"]]
-    src = cm.render_file({"tb": tb, "codec": codec, "layout": sc["layout"], "enc": "utf-8"})
+    senc, denc = sc.get("src_enc", "utf-8"), sc.get("dest_enc", "utf-8")
+    src = cm.render_file({"tb": tb, "codec": codec, "layout": sc["layout"], "enc": senc})
     if not tb and sc["src_fmt"] == "tigerxml":
         src = b"<?xml version='1.0'?>\n<corpus><body></body></corpus>"
     # ---- arithmetic through the API (larger sizes)
@@ -238,12 +243,12 @@ def execute(sc, sim):
         return done(sc, st, [cm.viol("C17/part-left-open", files=obs["unclosed_at_return"])])
     # ---- each part: a complete document of the format, sizes, content
     fmt = sc["dest_fmt"]
-    step = {"src_fmt": sc["src_fmt"], "dest_fmt": fmt, "dest_enc": "utf-8", "dopts": sc["dopts"],
+    step = {"src_fmt": sc["src_fmt"], "dest_fmt": fmt, "dest_enc": denc, "dopts": sc["dopts"],
             "sopts": {}}
     decoded = []
     for i, p in enumerate(expect_files):
         try:
-            dec = c03.decode_dest(obs["files"][p], fmt, "utf-8", sc["dopts"])
+            dec = c03.decode_dest(obs["files"][p], fmt, denc, sc["dopts"])
         except rc.DecodeError as e:
             return done(sc, st, [cm.viol("C17/part-not-a-document/%s" % fmt, part=i,
                                          error=str(e)[:200], size=want[i])])
@@ -262,7 +267,7 @@ def execute(sc, sim):
         st.probe("unsplit_reference_run_failed")
         return done(sc, st, viols)
     try:
-        whole = c03.decode_dest(obs2["files"]["/sim/w/out/d"], fmt, "utf-8", sc["dopts"])
+        whole = c03.decode_dest(obs2["files"]["/sim/w/out/d"], fmt, denc, sc["dopts"])
     except rc.DecodeError:
         st.probe("unsplit_reference_run_failed")
         return done(sc, st, viols)
@@ -376,6 +381,11 @@ def shrink_candidates(sc):
         c = model.clone(sc)
         del c["dopts"][k]
         yield c
+    for key in ("src_enc", "dest_enc"):
+        if sc.get(key, "utf-8") != "utf-8":
+            c = model.clone(sc)
+            c[key] = "utf-8"
+            yield c
     if sc["src_fmt"] != "export":
         c = model.clone(sc)
         c["src_fmt"] = "export"
